@@ -200,10 +200,13 @@ def from_isodatetime(date_time: str | None):
                 kwargs[key] = parse_timezone(value)
             elif key == 'second':
                 if '.' in value:
-                    secs = float(value)
-                    kwargs[key] = int(secs)
-                    secs -= int(secs)
-                    kwargs['microsecond'] = int(1000000.0 * secs)
+                    whole, frac = value.split('.', 1)
+                    if '.' in frac or not (whole or frac):
+                        raise ValueError(date_time)
+                    kwargs[key] = int(whole or '0', 10)
+                    # take the microseconds from the decimal digits
+                    # themselves, going through a float loses the last digit
+                    kwargs['microsecond'] = int((frac + '000000')[:6], 10)
                 else:
                     kwargs[key] = int(value, 10)
             else:
